@@ -511,6 +511,12 @@ class DateRange:
             date += self.step
 
     def __contains__(self, date):
+        if self.step.total_seconds() < 0:
+            if self.inclusive:
+                return self.stop <= date <= self.start
+            else:
+                return self.stop < date <= self.start
+
         if self.inclusive:
             return self.start <= date <= self.stop
         else:
